@@ -13,15 +13,15 @@ import (
 
 // Event is one ndjson trace line.
 type Event struct {
-	Seq  int            `json:"seq"`
-	Txn  string         `json:"txn"`
-	Ev   string         `json:"ev"`
-	N    int            `json:"n,omitempty"` // per-transaction backend call index (1-based)
-	Args map[string]any `json:"args,omitempty"`
-	Res  map[string]any `json:"res,omitempty"`
-	Err  string         `json:"err,omitempty"`
-	Skip bool           `json:"skip,omitempty"` // the call failed before reaching the backend (no effect)
-	After bool          `json:"after,omitempty"` // the backend call completed; the error was injected afterwards
+	Seq   int            `json:"seq"`
+	Txn   string         `json:"txn"`
+	Ev    string         `json:"ev"`
+	N     int            `json:"n,omitempty"` // per-transaction backend call index (1-based)
+	Args  map[string]any `json:"args,omitempty"`
+	Res   map[string]any `json:"res,omitempty"`
+	Err   string         `json:"err,omitempty"`
+	Skip  bool           `json:"skip,omitempty"`  // the call failed before reaching the backend (no effect)
+	After bool           `json:"after,omitempty"` // the backend call completed; the error was injected afterwards
 }
 
 // ErrInjected is the error injected faults return.
@@ -29,14 +29,15 @@ var ErrInjected = errors.New("verif: injected fault")
 
 // Fault describes one injected failure: the k-th backend call of transaction Txn (counted since Arm).
 type Fault struct {
-	Txn    string
-	Index  int    // 1-based call index within the txn; 0 = disabled
-	Kind   string // optional: only calls of this kind are counted ("" = all)
-	After  bool   // false: fail before the call (no effect); true: perform the call then report failure
-	Crash  bool   // instead of failing: os.Exit(ExitCrash) (child process crash)
-	Die    bool   // instead of failing: block this goroutine forever (in-process death)
-	Sticky bool   // keep failing every later matching call too
-	hit    bool
+	Txn         string
+	Index       int    // 1-based call index within the txn; 0 = disabled
+	Kind        string // optional: only calls of this kind are counted ("" = all)
+	After       bool   // false: fail before the call (no effect); true: perform the call then report failure
+	Crash       bool   // instead of failing: os.Exit(ExitCrash) (child process crash)
+	Die         bool   // instead of failing: block this goroutine forever (in-process death)
+	Sticky      bool   // keep failing every later matching call too
+	OnlyStorage bool   // Index counts storage calls only (BLOB./REG./SR./TLOG./PLOG.), cache and lock calls never fail
+	hit         bool
 }
 
 const ExitCrash = 77
@@ -127,7 +128,11 @@ func (h *Hub) Resume(txn string) {
 	}
 }
 
-func (h *Hub) IsParked(txn string) bool { h.mu.Lock(); defer h.mu.Unlock(); return h.parked[txn] != nil }
+func (h *Hub) IsParked(txn string) bool {
+	h.mu.Lock()
+	defer h.mu.Unlock()
+	return h.parked[txn] != nil
+}
 
 // Emit appends an event (harness-level events use this too).
 func (h *Hub) Emit(e Event) {
@@ -162,6 +167,9 @@ func (h *Hub) before(txn, kind string) decision {
 	n := h.counts[txn]
 	h.kcounts[txn+"|"+kind]++
 	kn := h.kcounts[txn+"|"+kind]
+	if IsStorageKind(kind) {
+		h.kcounts[txn+"|#storage"]++
+	}
 	var d decision
 	d.n = n
 	var park chan struct{}
@@ -175,6 +183,12 @@ func (h *Hub) before(txn, kind string) decision {
 			continue
 		}
 		idx := n
+		if f.OnlyStorage {
+			if !IsStorageKind(kind) {
+				continue
+			}
+			idx = h.kcounts[txn+"|#storage"]
+		}
 		if f.Kind != "" {
 			if f.Kind != kind {
 				continue
@@ -234,6 +248,16 @@ func (h *Hub) Gate(txn, kind string) {
 		h.Notify <- ParkMsg{Txn: txn, N: n, Kind: kind}
 		<-park
 	}
+}
+
+// IsStorageKind: calls into blob store, registry, store repository, transaction and priority log.
+func IsStorageKind(k string) bool {
+	for _, p := range []string{"BLOB.", "REG.", "SR.", "TLOG.", "PLOG."} {
+		if len(k) >= len(p) && k[:len(p)] == p {
+			return true
+		}
+	}
+	return false
 }
 
 // FlushOnCrash lets the process owner persist the trace before os.Exit.
